@@ -27,14 +27,14 @@ func TestMain(m *testing.M) { vt.Main(m) }
 
 // Env is one JSON-RPC envelope of the grammar.
 type Env struct {
-	ID     string `json:"id"`     // JSON token of the id ("" = absent): 7, -3, "abc", 9007199254740993 ...
-	Method string `json:"method"` // see methods
-	Params string `json:"params"` // absent | null | valid | wrongtype | array
+	ID     string `json:"id"`             // JSON token of the id ("" = absent): 7, -3, "abc", 9007199254740993 ...
+	Method string `json:"method"`         // see methods
+	Params string `json:"params"`         // absent | null | valid | wrongtype | array
 	Gate   int    `json:"gate,omitempty"` // for tools/call park: which gate the handler parks on
 }
 
 type Step struct {
-	Kind    string `json:"kind"` // send | release
+	Kind    string `json:"kind"`           // send | release
 	Envs    []Env  `json:"envs,omitempty"` // send: 1 envelope = single message, >1 = batch
 	Release int    `json:"release,omitempty"`
 }
@@ -207,10 +207,10 @@ func (e Env) wire() string {
 
 // expectation for one envelope.
 type expect struct {
-	response bool  // a response bearing the id must arrive (eventually)
-	codes    []int // if non-nil the response must be an error with one of these codes
-	parks    bool  // handler parks on Gate (response only after release)
-	class    string
+	response  bool  // a response bearing the id must arrive (eventually)
+	codes     []int // if non-nil the response must be an error with one of these codes
+	parks     bool  // handler parks on Gate (response only after release)
+	class     string
 	malformed bool // structurally invalid or undecodable: an HTTP transport may refuse the whole POST with a 4xx
 }
 
@@ -395,8 +395,8 @@ func parseLine(raw json.RawMessage, lineNo int) []recvMsg {
 	var out []recvMsg
 	for _, p := range parts {
 		var probe struct {
-			Method *string          `json:"method"`
-			Result json.RawMessage  `json:"result"`
+			Method *string             `json:"method"`
+			Result json.RawMessage     `json:"result"`
 			Error  *struct{ Code int } `json:"error"`
 		}
 		json.Unmarshal(p, &probe)
@@ -432,11 +432,11 @@ func run(s Script) (res vt.Result) {
 
 // pending is one request the oracle is waiting a response for.
 type pending struct {
-	env   Env
-	exp   expect
-	tok   string
-	batch int // index of the send step if it was a batch, else -1
-	done  bool
+	env      Env
+	exp      expect
+	tok      string
+	batch    int // index of the send step if it was a batch, else -1
+	done     bool
 	released bool
 }
 
@@ -636,12 +636,12 @@ func runNDJSON(s Script) (res vt.Result) {
 						tok = e.ID
 					}
 					if inflight[tok] && ex.response && !parkedTok(tok) {
-					// The original is only awaiting a deferred batch/JSON reply: whether the server still
-					// counts it as in flight is unobservable, so this shape is not generated.
-					e.ID = fmt.Sprintf("%d", 300000+step*10+j)
-					tok = e.ID
-				}
-				if inflight[tok] && ex.response {
+						// The original is only awaiting a deferred batch/JSON reply: whether the server still
+						// counts it as in flight is unobservable, so this shape is not generated.
+						e.ID = fmt.Sprintf("%d", 300000+step*10+j)
+						tok = e.ID
+					}
+					if inflight[tok] && ex.response {
 						// re-use of an id that is still in flight: must be refused with an error bearing
 						// that id, without touching the original.
 						if vt.Open("F4") {
